@@ -20,7 +20,7 @@ class C03(Prop):
             "immediate second rebalance to the same target; fees and spreads of all kinds. Non-trivial = non-empty "
             "prior holdings and (a held contract absent from the target, or a short/leveraged target, or a margined "
             "contract targeted under a spread, or the nr-contracts measure); distinct = distinct cases")
-    nontrivial_tags = {"untargeted-held", "short-target", "leveraged-target", "margined-spread", "nr-contracts"}
+    nontrivial_tags = {"untargeted-held", "short-target", "leveraged-target", "margined-spread", "nr-contracts", "interest-credited"}
     assumptions = [
         "cash book quoted 1.0:1.0 and reference-rate book seeded, as TradingEnv.reset does",
         "targets below the broker's epsilon (1e-7 contracts) are the recorded known finding K1",
@@ -45,6 +45,12 @@ class C03(Prop):
         if rng.random() < 0.15:
             tgt["USD"] = fr(Fraction(1, 4))  # an entry for the cash contract is ignored
         c["ops"] = [op for op in c["ops"] if op[0] != "nlv"]
+        if rng.random() < 0.6:
+            # a non-zero reference rate and an interest clock started earlier: the rebalance credits interest first,
+            # and the target must be sized on the NLV *after* that credit (the NLV measured just before trading)
+            rr = rng.choice(["1/32", "1/10", "3/100", "1/5"])
+            c["ops"] = [["q", "RATE", bs.T0, rr, rr], ["accrue", bs.T0, 1]] + c["ops"]
+            c["interest"] = True
         c["ops"] += [["rebal", t, int(by_weight), 1, 1, "0", tgt], ["weights"], ["nlv", 0],
                      ["rebal", t + 1, int(by_weight), 1, 1, "0", tgt], ["nlv", 0]]
         return c
@@ -70,6 +76,8 @@ def judge_c03(r, s):
         r.tags.add("rebalance-refused")
         return
     rb = first["rebal"]
+    if first.get("reb") is not None and F(first["reb"].profit_on_idle_cash) != 0:
+        r.tags.add("interest-credited")
     tgt = {k: v for k, v in rb["target"].items() if k != "USD" and v != 0}
     nlv_pre = first["nlv_pre"]
     tol = first["tol"] * 10
